@@ -12,7 +12,9 @@ Pool == { [name |-> "salt", amount |-> Num(4, "g")], [name |-> "salt", amount |-
           [name |-> "salt", amount |-> Rg(4, 8, "g")], [name |-> "salt", amount |-> Rg(8, 16, "g")], [name |-> "salt", amount |-> Tx("pinch", "")],
           [name |-> "salt", amount |-> NoAmount], [name |-> "oil", amount |-> Num(4, "g")], [name |-> "oil", amount |-> Num(10, "")],
           \* a unit that differs from another one only in letter case is another unit
-          [name |-> "salt", amount |-> Num(2, "G")] }
+          [name |-> "salt", amount |-> Num(2, "G")],
+          \* an amount of zero is an amount: its key is present in the result like any other
+          [name |-> "salt", amount |-> Num(0, "tsp")], [name |-> "oil", amount |-> Num(0, "ml")] }
 Init == list = <<>> /\ sel = <<>> /\ stage = "list"
 AddItem == stage = "list" /\ Len(list) < MaxLen /\ \E i \in Pool : list' = Append(list, i) /\ UNCHANGED <<sel, stage>>
 StartSel == stage = "list" /\ list # <<>> /\ stage' = "sel" /\ UNCHANGED <<list, sel>>
